@@ -238,7 +238,7 @@ func runCase(run *evid.Run, idx int) {
 		}
 		if hasSub {
 			// repositories outside the prefix must not show up
-			for _, out := range []string{"pre", "pre/fixx/a", "pre/fi", "zzz", "a"} {
+			for _, out := range []string{"pre", "pre/fixx/a", "pre/fi", "zzz", "a", "pre/fix-x/a", "pre/fix.y", "pre/fix_z", "pre/fix0"} {
 				put(func(reg ociregistry.Interface) { pushBlob(reg, out, []byte("outside")) })
 			}
 		}
